@@ -46,26 +46,31 @@ def check(ctx):
     prog = ctx.prog
     b = prog.async_body(WF)
     R1 = ctx.rule("R1", "every open() of a storage file is preceded on all paths by write(true) and truncate(true)|create_new(true) on the same builder, never append(true)")
-    opens = b.calls_to(OO + "::open", STD_OO + "::open")
-    creates = b.calls_to("tokio::fs::file::File::create", "std::fs::File::create")
-    ctx.floor(R1, "open/create sites in write_file", len(opens) + len(creates), 1)
-    for o in opens:
-        recv = arg_origins(o, 0)
-        def same_builder(c):
-            return bool(arg_origins(c, 0).locals & recv.locals)
-        wr = [c for c in true_arg_calls(b, OO + "::write") + true_arg_calls(b, STD_OO + "::write") if same_builder(c)]
-        tr = [c for c in true_arg_calls(b, OO + "::truncate") + true_arg_calls(b, STD_OO + "::truncate") if same_builder(c)]
-        cn = [c for c in true_arg_calls(b, OO + "::create_new") + true_arg_calls(b, STD_OO + "::create_new") if same_builder(c)]
-        ap = [c for c in true_arg_calls(b, OO + "::append") + true_arg_calls(b, STD_OO + "::append") if same_builder(c)]
-        ok, hit = unreachable_without(b, [o.bb], removed_nodes=[c.bb for c in wr])
-        ctx.require(R1, bool(wr) and ok, o.where(), "the file is opened for writing (write(true) on every path to open)", [WF, "open-without-write"])
-        ok, hit = unreachable_without(b, [o.bb], removed_nodes=[c.bb for c in tr + cn])
-        ctx.require(R1, bool(tr + cn) and ok, o.where(),
-                    "every path to open() passes truncate(true) or create_new(true): older, longer content cannot survive a rewrite", [WF, "open-without-truncate"])
-        ctx.require(R1, not ap, ap[0].where() if ap else o.where(), "the file is never opened in append mode", [WF, "append"])
-        # the path opened is the storage path computed by get_file_full_path
-        p = arg_origins(o, 1)
-        ctx.require(R1, any(x.is_("acmed::storage::get_file_full_path") for x in p.calls), o.where(), "the opened path is get_file_full_path(fm, file_type)", [WF, "path"])
+    from .storage_common import write_file_traces, index_of
+    traces = write_file_traces(prog)
+    ctx.floor(R1, "write_file success-path traces (file exists x file type)", len(traces), 6)
+    for (exists, ft), tr in sorted(traces.items()):
+        ev = tr["events"]
+        who = "%s file, %s" % (ft, "already exists" if exists else "new")
+        i_open = index_of(ev, lambda e: e[0] in ("oo.open", "create"))
+        if tr["kind"] != "return" or i_open < 0:
+            ctx.fail(R1, "%s:%s" % (b.file, b.line), "write_file's success path could not be evaluated or never opens the file (%s): %s" % (who, tr["kind"]), [WF, "trace", ft, str(exists)])
+            continue
+        if ev[i_open][0] == "create":
+            ctx.ok(R1, "%s: File::create (truncates)" % who)
+            continue
+        news = [i for i, e in enumerate(ev[:i_open]) if e[0] == "oo.new"]
+        flags = {e[0][3:]: e[1] for e in ev[(news[-1] if news else 0):i_open] if e[0].startswith("oo.")}
+        ctx.require(R1, flags.get("write") is True, "%s:%s" % (b.file, b.line), "%s: opened with write(true) (%s)" % (who, flags), [WF, "open-without-write", ft, str(exists)])
+        ctx.require(R1, flags.get("truncate") is True or flags.get("create_new") is True, "%s:%s" % (b.file, b.line),
+                    "%s: opened with truncate(true) or create_new(true) — older, longer content cannot survive (%s)" % (who, flags), [WF, "open-without-truncate", ft, str(exists)])
+        ctx.require(R1, flags.get("append") is not True, "%s:%s" % (b.file, b.line), "%s: never opened in append mode" % who, [WF, "append", ft, str(exists)])
+        ctx.require(R1, "PATH" in str(ev[i_open][1]), "%s:%s" % (b.file, b.line), "%s: the opened path is the storage path of get_file_full_path (%s)" % (who, ev[i_open][1]), [WF, "path", ft, str(exists)])
+        i_w = index_of(ev, lambda e: e[0] == "write_all", i_open)
+        ctx.require(R1, i_w > i_open and "DATA" in str(ev[i_w][1]), "%s:%s" % (b.file, b.line), "%s: the data parameter is written after the open" % who, [WF, "write-after-open", ft, str(exists)])
+    # no append(true) anywhere in the function (any path)
+    ap = true_arg_calls(b, OO + "::append") + true_arg_calls(b, STD_OO + "::append")
+    ctx.require(R1, not ap, ap[0].where() if ap else "%s:%s" % (b.file, b.line), "append(true) is never used in write_file", [WF, "append-any-path"])
 
     R2 = ctx.rule("R2", "write_all(data) once, whole, then flush; both errors propagated; Ok(()) only after both succeeded")
     wa = b.calls_to("tokio::io::util::async_write_ext::AsyncWriteExt::write_all", "std::io::Write::write_all")
